@@ -340,7 +340,40 @@ def r3b_worker_lives_with_handler(ctx):
     c16.r1_mode_table(Renamed(ctx, "C17.R3b", "every detached handler task holds a waitgroup worker until its handler future completed, so shutdown's wait covers it"))
 
 
-RULES = [("C17.R3b", r3b_worker_lives_with_handler), ("C17.R1", r1_close_order), ("C17.R2", r2_server_task), ("C17.R3", r3_join_waits), ("C17.R4", r4_shared_result), ("C17.R5", r5_listener_owned)]
+
+def r6_waiters_and_timers(ctx):
+    """Added after adversary changes C17-C (`is_terminated()` also reported `peek().is_some()`: once one waiter had seen shutdown finish,
+    every other waiter claimed to be terminated and a fused `select!` never delivered its result) and C17-D (`builder.http1().http2().timer(..)`:
+    only HTTP/2 got a timer, hyper's HTTP/1 header-read timeout became inactive and shutdown never finished while a half-sent request was open)."""
+    from .lib import PLUMBING, callee_allow
+    from .lib_c16 import server_task
+    R = ctx.rule("C17.R6", "each waiter's FusedFuture::is_terminated is exactly that of its own handle on the shared completion future; "
+                 "the connection builder has a timer on BOTH protocol sub-builders (hyper's HTTP/1 header-read timeout is what lets shutdown finish past a half-sent request)", floor=4)
+    impls = [f for f in ctx.ds.F.values() if re.search(r"^<server::(ShutdownWaitFuture|HttpServer<C>) as futures::future::FusedFuture>::is_terminated$", f.id)]
+    ctx.check(R, "fused-impls", len(impls) == 2, "FusedFuture impls of the shutdown waiters: %d" % len(impls), nontrivial=False)
+    for f in impls:
+        ret = f.slice({"l": 0, "p": []})
+        calls = [c for c in ret.callee_names() if not any(re.search(p, c) for p in PLUMBING)]
+        own = ret.params() == [1] and all(c.endswith("FusedFuture::is_terminated") for c in calls) and len(calls) == 1
+        pure = not any(a[0] in ("binop", "unop", "lit") for a in ret.atoms) and len(list(f.switches())) == 0
+        ctx.check(R, "is_terminated-is-the-handle's:%s" % f.id.split(" as ")[0].lstrip("<"), own and pure,
+                  "is_terminated() = is_terminated() of the waiter's own Shared handle and nothing else: calls %s, branches %d" % (calls, len(list(f.switches()))), f)
+    stt = server_task(ctx.ds)
+    if isinstance(stt, str):
+        ctx.lost(R, stt)
+        return
+    st, sp, co, node = stt
+    serves = co.live_calls(r"auto::Builder::<E>::serve_connection(_with_upgrades)?$")
+    for proto, pat, sub in (("http1", r"auto::Http1Builder::<'_, E>::timer$", r"auto::Builder::<E>::http1$"), ("http2", r"auto::Http2Builder::<'_, E>::timer$", r"auto::Builder::<E>::http2$")):
+        timers = co.live_calls(pat)
+        ok = False
+        for bb, t in timers:
+            recv = co.slice(t["args"][0])
+            ok = recv.has_call(sub) and recv.has_call(r"auto::Builder::<E>::new$") and all(co.dominates(bb, sbb) for sbb, _ in serves) and bool(serves)
+        ctx.check(R, "timer-on-%s" % proto, ok, "a timer is installed on the %s sub-builder of the one connection builder before any connection is served: %s" % (proto, ok), co)
+
+
+RULES = [("C17.R6", r6_waiters_and_timers), ("C17.R3b", r3b_worker_lives_with_handler), ("C17.R1", r1_close_order), ("C17.R2", r2_server_task), ("C17.R3", r3_join_waits), ("C17.R4", r4_shared_result), ("C17.R5", r5_listener_owned)]
 
 _S = "dropshot/src/server.rs"
 _I32 = " " * 32
@@ -404,3 +437,5 @@ SELFTEST = [
 ]
 
 LEVEL_TEXT += " Also (R3b = C16.R1): each detached handler task owns a waitgroup worker until its handler future completed, which is what makes the join's wait cover detached handlers."
+
+LEVEL_TEXT += " Also (R6): each waiter's is_terminated() is exactly that of its own shared handle, and both protocol sub-builders of the connection builder get a timer (hyper's HTTP/1 header-read timeout lets shutdown finish past a half-sent request)."
